@@ -15,3 +15,19 @@ func VerifC18Drift() {
 	v.Assert(c.Drift(time.Duration(d)) == math.MaxInt64, "C18.drift.unknown-is-maxint64")
 	v.Reach("C18.drift")
 }
+
+// The drift allowance for a known drift rate: what "proportional to the interval" implies and a solver can
+// decide about a floating-point product - zero for a zero interval, never negative and growing with the
+// interval (intervals up to 2^62 ns, rates up to 1 %).
+func VerifC18DriftShape() {
+	drift := v.Float64("drift")
+	v.Assume(drift > 0 && drift <= 0.01)
+	d1, d2 := v.Int64("d1"), v.Int64("d2")
+	v.Assume(0 <= d1 && d1 <= d2 && d2 <= 1<<62)
+	c := &SystemClock{drift: drift}
+	a, b := c.Drift(time.Duration(d1)), c.Drift(time.Duration(d2))
+	v.Assert(c.Drift(0) == 0, "C18.drift.zero-interval-zero-allowance")
+	v.Assert(a >= 0, "C18.drift.never-negative-for-a-positive-rate")
+	v.Assert(a <= b, "C18.drift.grows-with-the-interval")
+	v.Reach("C18.driftshape")
+}
